@@ -64,19 +64,24 @@ def run(R):
                 if pin_evs and has_pin and not no_pin:
                     # hardware reset shape (a prefix of it on an error path)
                     shape = [s.cls for s in pre]
-                    full = ["PIN_LO", "DELAY", "PIN_HI"]
-                    is_prefix = shape == full[:len(shape)]
-                    complete = shape == full
+                    # PIN_LO . DELAY+ . PIN_HI . DELAY* : further waiting, while low or after the pin is high again, is
+                    # within the property (>= 10 us low, nothing on the bus before the pin is high)
+                    import re as _re
+                    word_ = "".join({"PIN_LO": "L", "PIN_HI": "H", "DELAY": "D"}.get(c, "x") for c in shape)
+                    complete = _re.fullmatch(r"LD+HD*", word_) is not None
+                    is_prefix = complete or _re.fullmatch(r"L(D+H?)?", word_) is not None
                     R.ob("C17-hw-pulse-shape", "%s|%s" % (tag, word), is_prefix and (complete or not mi),
-                         "with a reset pin the events before Model::init must be PIN_LO . DELAY . PIN_HI (or a prefix ending at a failing "
-                         "pin operation), got %s" % shape, where, sample={"reset_pin": True, "word": word, "condition": repr(cc)})
+                         "with a reset pin the events before Model::init must be PIN_LO . DELAY+ . PIN_HI . DELAY* (or a prefix ending at a "
+                         "failing pin operation), got %s" % shape, where, sample={"reset_pin": True, "word": word, "condition": repr(cc)})
                     recvs = set(s.recv for s in pin_evs)
                     R.ob("C17-hw-pulse-same-pin", "%s|%s|recv" % (tag, word), len(recvs) == 1 and all("rst" in (r or "") for r in recvs),
                          "reset pulse drives %s instead of the configured reset pin" % recvs, where)
-                    for s in pre:
-                        if s.cls == "DELAY":
-                            R.ob("C17-pulse-width", "%s|%s|delay" % (tag, word), s.ns is not None and s.ns >= 10000,
-                                 "reset pulse low time is %s ns, need >= 10000 ns" % (s.ns,), TR.where(s.ev))
+                    hi_at = [i for i, s in enumerate(pre) if s.cls == "PIN_HI"]
+                    low_delays = [s for s in (pre[:hi_at[0]] if hi_at else pre) if s.cls == "DELAY"]
+                    if low_delays:
+                        tot = sum(s.ns for s in low_delays) if all(s.ns is not None for s in low_delays) else None
+                        R.ob("C17-pulse-width", "%s|%s|delay" % (tag, word), tot is not None and tot >= 10000,
+                             "reset pulse low time is %s ns, need >= 10000 ns" % (tot,), TR.where(low_delays[0].ev))
                     R.ob("C17-no-soft-reset-with-pin", "%s|%s|nosoft" % (tag, word),
                          not any(s.cls == "CMD" for s in pre), "bus traffic before the reset pin is high again: %s" % word, where)
                 elif not pin_evs and no_pin and not has_pin:
